@@ -106,9 +106,117 @@ class SRelay(Relay):
         return dict(zip(env.recipients, vals))
 
 
+class PRelay(Relay):
+    """the repository's own PipeRelay under the proxying queue; what the delivery program did with each recipient is the
+    driver's script (exit 0, exit 75, a 5.x.x line and exit 1, killed by a signal), the relay's report is the library's"""
+
+    def __init__(self, log, behaviour, per_recipient):
+        Relay.__init__(self)
+        from slimta.relay.pipe import PipeRelay
+        self.log, self.behaviour = log, behaviour
+        cls = type('P', (PipeRelay,), {'per_recipient': per_recipient})
+        sh = ('case "$1" in ' + ' '.join('%s@*) %s;; ' % (r.split('@')[0], {'o': 'exit 0', 'T': 'echo later; exit 75', 'P': 'echo 5.1.1 no; exit 1',
+                                                                             'K': 'kill -9 $$'}[b])
+                                         for r, b in zip(RCPTS, behaviour)) + 'esac; cat >/dev/null')
+        self.inner = cls(['sh', '-c', sh, 'x', '{recipient}'], timeout=20)
+        self.per_recipient = per_recipient
+
+    def attempt(self, env, attempts):
+        n = len(env.recipients)
+        outs = [{'o': 'ok', 'T': 'T', 'P': 'P', 'K': 'T'}[b] for b in self.behaviour[:n]]
+        if not self.per_recipient:
+            outs = outs[:1] * n            # one program run for the whole message, handed the first recipient
+        self.log.append({'t': 'relay', 'result': 'pipe', 's': _sess(env), 'outs': outs})
+        return self.inner.attempt(env, attempts)
+
+
+class DStore(object):
+    """the real DiskStorage with a file system that fails: a write counts as done when the message can be read back by another
+    storage object over the same directories"""
+
+    def __init__(self, log, fail, base):
+        import slimta.diskstorage as ds
+        self.ds = ds
+        for d in ('env', 'meta', 'tmp'):
+            os.makedirs(os.path.join(base, d))
+        self.base = base
+        self.inner = ds.DiskStorage(os.path.join(base, 'env'), os.path.join(base, 'meta'), os.path.join(base, 'tmp'))
+        self.log, self.fail, self.n = log, fail, 0
+        self.gates = []
+
+    def __getattr__(self, name):
+        return getattr(self.inner, name)
+
+    def write(self, envelope, timestamp):
+        import errno
+        import shutil
+        ds = self.ds
+        self.n += 1
+        i = self.n
+        self.log.append({'t': 'write_start', 'i': i, 's': _sess(envelope), 'n': len(envelope.recipients)})
+        kind = self.fail.get(i)
+        real_aio, real_os = ds.aio_write, ds.os
+        count = [0]
+        if kind in ('nometa', 'noenv'):
+            shutil.rmtree(os.path.join(self.base, kind[2:]), ignore_errors=True)
+        elif kind and kind.startswith('enospc'):
+            k = int(kind[6:])
+
+            def failing(*a, **kw):
+                count[0] += 1
+                if count[0] == k:
+                    raise OSError(errno.ENOSPC, 'No space left on device')
+                return real_aio(*a, **kw)
+            ds.aio_write = failing
+        elif kind and kind.startswith('rename'):
+            k = int(kind[6:])
+
+            class OsProxy(object):
+                def __getattr__(self_, name):
+                    return getattr(real_os, name)
+
+                def rename(self_, a, b):
+                    count[0] += 1
+                    if count[0] == k:
+                        raise OSError(errno.EXDEV, 'Invalid cross-device link')
+                    return real_os.rename(a, b)
+            ds.os = OsProxy()
+        try:
+            rid = self.inner.write(envelope, timestamp)
+        except BaseException:
+            self.log.append({'t': 'write_end', 'i': i, 'ok': False, 's': _sess(envelope)})
+            raise
+        finally:
+            ds.aio_write, ds.os = real_aio, real_os
+            if kind in ('nometa', 'noenv'):
+                os.makedirs(os.path.join(self.base, kind[2:]), exist_ok=True)
+        ok = True
+        try:
+            other = ds.DiskStorage(os.path.join(self.base, 'env'), os.path.join(self.base, 'meta'), os.path.join(self.base, 'tmp'))
+            env, _ = other.get(rid)
+            ok = list(env.recipients) == list(envelope.recipients) and any(r == rid for _, r in other.load())
+        except Exception:  # noqa
+            ok = False
+        self.log.append({'t': 'write_end', 'i': i, 'ok': ok, 's': _sess(envelope)})
+        return rid
+
+
 def make_queue(log, cfg):
     if cfg['proxy']:
+        if cfg['relay'].startswith('pipe'):
+            _, per, beh = cfg['relay'].split(':')
+            return ProxyQueue(PRelay(log, beh, per == 'per')), None
         return ProxyQueue(SRelay(log, cfg['relay'])), None
+    if cfg.get('disk'):
+        from harness.common import WORK
+        import shutil
+        base = os.path.join(WORK, 'c02disk', '%d_%d' % (os.getpid(), cfg['disk']))
+        shutil.rmtree(base, ignore_errors=True)
+        st = DStore(log, cfg['fail'], base)
+        q = Queue(st, None)
+        for p in cfg['policies']:
+            q.add_policy({'RS': RecipientSplit, 'DS': RecipientDomainSplit, 'Y': YieldPolicy}[p]())
+        return q, st
     st = FStore(log, cfg['fail'], cfg['slow'])
     q = Queue(st, None, store_pool=cfg.get('store_pool'))
     for p in cfg['policies']:
@@ -143,6 +251,8 @@ def smtp_case(cfg):
     for sock in socks:       # all bodies arrive before anyone runs: the sessions hand off concurrently
         sock.feed(b''.join(DataSender(b'Subject: t\r\n\r\nbody\r\n')))
     vt.settle()
+    if cfg.get('realtime'):
+        _wait_real(lambda: all(len(_codes(sock.out[marks[k]:])) >= 1 for k, sock in enumerate(socks)))
     _release(st, socks, marks, seen, log, age=cfg.get('age', 0))
     for sock in socks:
         sock.shutdown_peer()
@@ -183,6 +293,15 @@ def _release(st, socks, marks, seen, log, age=0):
     look()
 
 
+def _wait_real(done, limit=20.0):
+    """disk reads and writes and child processes take real time"""
+    import time as _t
+    t_end = _t.time() + limit
+    while not done() and _t.time() < t_end:
+        gevent.sleep(0.005)
+        vt.settle()
+
+
 def _safe(fn):
     try:
         fn()
@@ -206,6 +325,8 @@ def wsgi_case(cfg):
             log.append({'t': 'reply', 'code': int(st_.split()[0]), 's': k + 1})
         gs.append(gevent.spawn(lambda environ=environ, start_response=start_response: _safe(lambda: edge(environ, start_response))))
     vt.settle()
+    if cfg.get('realtime'):
+        _wait_real(lambda: sum(1 for e in log if e['t'] == 'reply') >= cfg.get('nsess', 1))
     for _ in range(8):
         if st is None or not st.gates:
             break
@@ -279,6 +400,22 @@ def main():
                         for slow in ([1], [1, k + 1], list(range(1, 2 * k + 1))):
                             cases.append(dict(proxy=False, policies=policies, nrcpt=nrcpt, nenv=k, fail=fail, slow=slow, relay='none', nsess=nsess,
                                               store_pool=sp))
+    # the real disk backend under a file system that fails (directory gone, no space left at the k-th block, a rename refused):
+    # a write that did not leave a readable message behind is not custody
+    dn = 0
+    for policies in ([], ['RS']):
+        for nrcpt in (1, 3):
+            k = nenv(policies, nrcpt)
+            for fail in [{}] + [{i: kind} for i in sorted({1, k}) for kind in ('nometa', 'noenv', 'enospc1', 'enospc2', 'rename1', 'rename2')]:
+                dn += 1
+                cases.append(dict(proxy=False, policies=policies, nrcpt=nrcpt, nenv=k, fail=fail, slow=[], relay='none', disk=dn, realtime=True))
+    # the proxying queue over the repository's own pipe relay: delivery programs that exit 0, exit 75, print 5.x.x, or are killed
+    for per in ('per', 'one'):
+        for nrcpt in (1, 2, 3):
+            for beh in itertools.product('oTPK', repeat=nrcpt if per == 'per' else 1):
+                if per == 'per' and nrcpt == 3 and 'K' not in beh and beh.count('o') not in (0, 3):
+                    continue
+                cases.append(dict(proxy=True, policies=[], nrcpt=nrcpt, nenv=1, fail={}, slow=[], relay='pipe:%s:%s' % (per, ''.join(beh) + 'ooo'), realtime=True))
     # slow storage: every third case with a gated write is run once more with seven seconds passing before each write ends
     cases += [dict(c, age=7) for j, c in enumerate([c for c in cases if c.get('slow')]) if j % 3 == 0]
     for cfg in cases:
@@ -292,11 +429,16 @@ def main():
             jc.setdefault('nsess', 1)
             jc.setdefault('store_pool', 0)
             jc['fail'] = {str(k): v for k, v in cfg['fail'].items()}
-            f.write(json.dumps({'id': shard + n * nshards, 'cls': edge + ('-proxy' if cfg['proxy'] else '') + ('-split' if cfg['nenv'] > 1 else '') + ('-conc' if cfg.get('nsess', 1) > 1 else '') + ('-pool' if cfg.get('store_pool') else ''),
+            f.write(json.dumps({'id': shard + n * nshards, 'cls': edge + ('-proxy' if cfg['proxy'] else '') + ('-disk' if cfg.get('disk') else '') + ('pipe' if cfg['relay'].startswith('pipe') else '') + ('-split' if cfg['nenv'] > 1 else '') + ('-conc' if cfg.get('nsess', 1) > 1 else '') + ('-pool' if cfg.get('store_pool') else ''),
                                 'cfg': jc, 'ev': ev}, separators=(',', ':')) + '\n')
             n += 1
     f.write(json.dumps({'summary': stats}) + '\n')
     f.close()
+    import glob
+    import shutil
+    from harness.common import WORK
+    for d in glob.glob(os.path.join(WORK, 'c02disk', '%d_*' % os.getpid())):
+        shutil.rmtree(d, ignore_errors=True)
 
 
 if __name__ == '__main__':
